@@ -60,8 +60,8 @@ def run(ctx):
         binp = ctx.go_build("walfile")
         ctx.note("writer_lock_shim", False)
     rp = ctx.path("result.json")
-    stride = 3 if ctx.quick() else 1
-    ctx.run([binp, "-scenarios", sp, "-out", rp, "-recover-stride", str(stride)], timeout=3000)
+    stride = 3 if ctx.quick() else 2
+    ctx.run([binp, "-scenarios", sp, "-out", rp, "-recover-stride", str(stride)], timeout=6000)
     r = json.load(open(rp))
     if r.get("infra"):
         raise InfraError("walfile driver: " + r["infra"])
